@@ -141,6 +141,19 @@ class C11(Check):
                               delays=delays, hier=rng.random() < 0.2,
                               # multi-operator nodes: the kernel's source variable is also read inside its node
                               readouts=(0.5, 0.0, 0.5) if rng.random() < 0.25 else None)
+        kern = [e for e in spec['edges'] if e[2].get('delay') and e[2].get('spread')]
+        if kern and stratum != 'S-big' and rng.random() < 0.2:
+            # a kernel whose mean delay is at most one step, next to a longer kernel on the same source variable
+            src, tgt, _ = rng.choice(kern)
+            d = rng.choice([0.8, 0.5, 1.0]) * dt
+            others = sorted({e[1] for e in spec['edges']} - {tgt}) or [tgt]
+            spec['edges'].append([src, rng.choice(others), {'weight': rng.choice([0.75, -1.25, 1.5]), 'delay': d,
+                                                           'spread': d / math.sqrt(rng.choice([2.0, 3.0, 1.0]))}])
+        if rng.random() < 0.2:
+            # delays typed as whole numbers (2 instead of 2.0)
+            for e in spec['edges']:
+                if e[2].get('delay') and float(e[2]['delay']).is_integer():
+                    e[2]['delay'] = int(e[2]['delay'])
         if stratum == 'S-big':
             # one vectorized group of 10-16 nodes with kernel edges in a ring / fan-out / converging pattern
             spec = models.gen_big(rng, kind=rng.choice(['converge', 'converge', 'ring', 'fan']), delays=delays)
